@@ -339,10 +339,15 @@ pub fn run(case: &Value) -> Value {
     let mut delivered = if eager { nitems } else { 0 };
     let mut rounds = 0;
     let max_rounds = case["max_rounds"].as_u64().unwrap_or(400);
+    let p_multi = case["p_multi"].as_u64().unwrap_or(0) as usize;
     while !done && rounds < 4000 {
         rounds += 1;
+        // several stimuli may be applied before the stream is polled again, so that more than one
+        // attempt can complete within the same poll
+        let burst = if rng.below(100) < p_multi { 2 + rng.below(2) } else { 1 };
+        for _ in 0..burst {
         let waiting: Vec<u64> = ST.with(|s| {
-            s.borrow().gates.iter().filter(|(_, g)| g.is_waiting).map(|(k, _)| *k).collect()
+            s.borrow().gates.iter().filter(|(_, g)| g.is_waiting && g.permits == 0).map(|(k, _)| *k).collect()
         });
         let release_all = rounds > max_rounds;
         // choose among the enabled stimuli
@@ -385,6 +390,7 @@ pub fn run(case: &Value) -> Value {
                     }
                 });
             }
+        }
         }
         flag.0.store(true, Ordering::SeqCst);
         pump(&mut evs, &mut done, &mut received);
